@@ -99,6 +99,14 @@ func (c *Ctx) Fail(rule string, input any, format string, a ...any) {
 	v.Count++
 }
 
+// Risky records the case about to run in the progress file named by $VENUM_PROGRESS, so that a
+// fatal (unrecoverable) crash of the process can be attributed to it.
+func (c *Ctx) Risky(desc string) {
+	if p := os.Getenv("VENUM_PROGRESS"); p != "" {
+		os.WriteFile(p, []byte(c.name+" :: "+desc), 0o644)
+	}
+}
+
 // Expired reports whether the deadline passed (checked cheaply every 4096 calls).
 func (c *Ctx) Expired() bool {
 	if c.hit {
